@@ -59,11 +59,17 @@ def gen_members(rng, benign):
                               [l + '/via%d' % i for l in links])
             link = ''
             if kind in ('sym', 'hard'):
-                link = rng.choice(['f0', 'd0', '..', '../..', '../../outside_dir', '/etc', '/tmp', 'd0/..', '.', '../{DEST}', 'x/y/z'] +
+                # hard-link targets are resolved by tarfile from the archive root, symbolic ones from the link's directory:
+                # '../decoy.txt', '../outside_dir/keep.txt', '../../grand.txt' name files that exist outside the sandbox's
+                # install directory
+                link = rng.choice(['f0', 'd0', '..', '../..', '../../outside_dir', '/etc', '/tmp', 'd0/..', '.', '../{DEST}', 'x/y/z',
+                                   '../decoy.txt', '../outside_dir/keep.txt', '../../grand.txt', '../decoy.txt'] +
                                   [l for l in links] + [l + '/..' for l in links] + [l + '/../..' for l in links])
                 if kind == 'sym':
                     name = rng.choice(['L%d' % i, 'd0/L%d' % i, 'x/L%d' % i])
                     links.append(name)
+        if not benign and kind == 'file' and ms and rng.random() < 0.3:
+            name = rng.choice(ms)['name']     # a later member re-using an earlier name writes THROUGH whatever is there
         ms.append({'kind': kind, 'name': name, 'linkname': link, 'content': i + 1})
     return ms
 
@@ -81,6 +87,13 @@ def cases(rng, tier):
                             {'kind': 'sym', 'name': 'l', 'linkname': 'd/../../..', 'content': 2},
                             {'kind': 'sym', 'name': 'x', 'linkname': '.', 'content': 3},
                             {'kind': 'file', 'name': 'l/pwn', 'linkname': '', 'content': 4}], 'benign': False, 'gz': False})
+    # a link to a file that exists outside, then a regular member of the same name writing through it; every depth of
+    # the link's own directory, because a filter that resolves hard-link targets from the wrong base is depth-sensitive
+    for target in ('../decoy.txt', '../outside_dir/keep.txt', '../../grand.txt'):
+        for name in ('h', 'd0/h', 'd0/sub/h', 'a/b/c/h'):
+            for kind in ('hard', 'sym'):
+                out.append({'members': [{'kind': kind, 'name': name, 'linkname': target, 'content': 1},
+                                        {'kind': 'file', 'name': name, 'linkname': '', 'content': 2}], 'benign': False, 'gz': False})
     return out
 
 
